@@ -37,6 +37,9 @@ def run(chk, tier, replay=None):
             for k in (24, 40, 46):
                 vs.append(equiv.Variant("drain every %d sends" % k, {"pattern": "every_k", "every_k": k}))
             vs.append(equiv.Variant("random polling 4%", {"pattern": "random", "poll_pct": 4, "poll_seed": rng.randrange(1 << 20)}))
+            # a slow sender lets the pipeline finish pictures while nothing is collected
+            vs.append(equiv.Variant("drain every 40 sends, slow sender", {"pattern": "every_k", "every_k": 40, "sleep_us": 80000}))
+            vs.append(equiv.Variant("drain every 46 sends, slow sender", {"pattern": "every_k", "every_k": 46, "sleep_us": 50000}))
         if not quick:
             for k in (2, 5, 8, 31):
                 vs.append(equiv.Variant("drain every %d sends" % k, {"pattern": "every_k", "every_k": k}))
